@@ -1343,3 +1343,134 @@ def replay(ctx, rep):   # noqa: F811
         pye()
         return common.scenario_replay(ctx, rep, {'relocate': relocate_scenarios})
     return _replay_main4(ctx, rep)
+
+
+# ---------------------------------------------------------------------------
+# namesake files in different directories referring to each other (similarly shaped models, so that the fragment of
+# the target also exists in the referrer's own file), and resources with DIFFERENT uuid settings referring to each
+# other: after save and a reload in a fresh resource set, every file loaded first in turn, each reference reaches
+# the object of the intended file (oracle on the implementation only)
+
+def namesake_scenarios(ctx, out):
+    import tempfile as _tf
+    from pyecore.ecore import EClass, EAttribute, EReference, EString, EPackage
+    from pyecore.resources import ResourceSet, URI
+    from pyecore.resources.json import JsonResource
+    rng = common.rng_for(ctx.seed, 'C14:namesake')
+    n = 16 if ctx.tier != 'thorough' else 300
+    cnt = 0
+    for it in range(n):
+        fmt = 'xmi' if it % 2 == 0 else 'json'
+        pkg = EPackage('p', nsURI=f'http://verif/c14/namesake/{it}', nsPrefix='p')
+        Node = EClass('Node')
+        Node.eStructuralFeatures.append(EAttribute('name', EString))
+        Node.eStructuralFeatures.append(EReference('kids', Node, upper=-1, containment=True))
+        Node.eStructuralFeatures.append(EReference('one', Node))
+        Node.eStructuralFeatures.append(EReference('many', Node, upper=-1))
+        pkg.eClassifiers.append(Node)
+
+        def new_rset():
+            rs = ResourceSet()
+            rs.metamodel_registry[pkg.nsURI] = pkg
+            if fmt == 'json':
+                rs.resource_factory['json'] = lambda uri: JsonResource(uri)
+            return rs
+        nfiles = rng.choice([2, 3])
+        same_name = rng.random() < 0.6
+        uuids = [rng.random() < 0.4 for _ in range(nfiles)] if rng.random() < 0.6 else [False] * nfiles
+        save_order = list(range(nfiles))
+        rng.shuffle(save_order)
+        hist = {'format': fmt, 'files': nfiles, 'same_file_name': same_name, 'use_uuid': uuids, 'save_order': save_order,
+                'links': []}
+        case = {'scenario': 'namesake', 'seed': ctx.seed, 'tier': ctx.tier, 'history': hist}
+        sig = {'property': 'C14', 'clause': None, 'scenario': 'namesake', 'format': fmt,
+               'mixed_uuid': len(set(uuids)) > 1, 'same_file_name': same_name}
+        with _tf.TemporaryDirectory() as tmp:
+            try:
+                rs = new_rset()
+                paths, roots = [], []
+                for d in range(nfiles):
+                    base = os.path.join(tmp, f'd{d}')
+                    os.makedirs(base, exist_ok=True)
+                    p = os.path.join(base, ('model' if same_name else f'm{d}') + '.' + fmt)
+                    root = Node(name=f'r{d}')
+                    for k in range(3):
+                        root.kids.append(Node(name=f'r{d}.k{k}'))
+                    res = rs.create_resource(URI(p))
+                    res.use_uuid = uuids[d]
+                    res.append(root)
+                    paths.append(p)
+                    roots.append(root)
+                expected = {}       # referrer name -> (feature, [target names])
+                for d in range(nfiles):
+                    for src in [roots[d]] + list(roots[d].kids):
+                        if rng.random() < 0.6:
+                            e = rng.choice([x for x in range(nfiles) if x != d])
+                            tgt = rng.choice([roots[e]] + list(roots[e].kids))
+                            src.one = tgt
+                            expected[(src.name, 'one')] = [tgt.name]
+                            hist['links'].append([src.name, 'one', tgt.name])
+                        if rng.random() < 0.3:
+                            ts = []
+                            for _ in range(rng.randrange(1, 3)):
+                                e = rng.choice([x for x in range(nfiles) if x != d])
+                                tgt = rng.choice([roots[e]] + list(roots[e].kids))
+                                if tgt not in ts:
+                                    ts.append(tgt)
+                            src.many.extend(ts)
+                            expected[(src.name, 'many')] = [t.name for t in ts]
+                            hist['links'].append([src.name, 'many', [t.name for t in ts]])
+                for d in save_order:
+                    rs.get_resource(URI(paths[d])).save()
+                for first in range(nfiles):
+                    rs2 = new_rset()
+                    order = [first] + [x for x in range(nfiles) if x != first]
+                    loaded = {}
+                    for d in order:
+                        r = rs2.get_resource(URI(paths[d]))
+                        root = r.contents[0]
+                        for o in [root] + list(root.kids):
+                            loaded[o.name] = o
+                    for (sname, feat), tnames in sorted(expected.items()):
+                        src = loaded[sname]
+                        vals = [src.one] if feat == 'one' else list(src.many)
+                        cnt += 1
+                        got = []
+                        for v in vals:
+                            if v is None:
+                                got.append(None)
+                                continue
+                            nm = v.name         # follows the proxy
+                            tgt = loaded.get(nm)
+                            same = tgt is not None and (v == tgt)
+                            resp = v.eResource.uri.normalize() if getattr(v, 'eResource', None) else None
+                            got.append(nm if same and resp == tgt.eResource.uri.normalize() else f'{nm} (another instance, of {resp and os.path.relpath(resp, tmp)})')
+                        if sorted(map(str, got)) != sorted(tnames):
+                            sig['clause'] = 'reference-reaches-another-object'
+                            out.fail(sig, f'{sname}.{feat} was saved pointing to {tnames}; after a reload (file {first} first) it '
+                                          f'reaches {got}', case)
+                            raise StopIteration
+            except StopIteration:
+                pass
+            except Exception as e:  # noqa
+                sig['clause'] = 'namesake-raised'
+                out.fail(sig, f'{type(e).__name__}: {e}', case)
+    out.coverage['namesake_and_mixed_uuid_references'] = cnt
+
+
+_run_main5 = run
+
+
+def run(ctx, out):   # noqa: F811
+    _run_main5(ctx, out)
+    namesake_scenarios(ctx, out)
+
+
+_replay_main5 = replay
+
+
+def replay(ctx, rep):   # noqa: F811
+    if rep.get('case', {}).get('scenario') == 'namesake':
+        pye()
+        return common.scenario_replay(ctx, rep, {'namesake': namesake_scenarios})
+    return _replay_main5(ctx, rep)
